@@ -35,6 +35,7 @@ def opts(tier):
     o.max_channels = 4
     o.many_segments_p = 0.02
     o.pad_p = 0.15
+    o.unknown_offset_p = 0.15
     return o
 
 
@@ -181,6 +182,11 @@ def execute(case):
                 res.violations.append(V('C09.index-changes-result', 'TdmsFile.%s: %s' % (mode, detail), mode=mode, what=str(what)))
         # ---- index only
         ref = snaps[(False, 'read_metadata')]
+        marker = src['kind'] == 'stub' and src['spec']['segments'][-1].get('next_offset') == 'unknown'
+        if marker:
+            # don't-care: with the 'length unknown' marker the lengths of the last segment cannot be known from the
+            # index alone (today the library raises TypeError there); index-only is judged for complete files
+            res.probe('marker-skips-index-only')
         if isinstance(ref, dict) and case['cut'] is None:
             st.remove('w.tdms')
             st.put('only.tdms_index', index, real=real)
@@ -192,12 +198,16 @@ def execute(case):
                     try:
                         tf = open_mode(mode, src_, raw_ts)
                     except Exception as exc:
+                        if marker:
+                            continue        # don't-care (see above): refusing to open is accepted there
                         res.violations.append(V('C09.index-only-raises', 'TdmsFile.%s(index %s): %s: %s' % (
                             mode, kind, type(exc).__name__, exc), mode=mode))
                         continue
                     try:
                         got = snapshot(tf, 'read_metadata')
                         for k in ('groups', 'props', 'len', 'dtype'):
+                            if marker and k == 'len':
+                                continue    # lengths of a 'length unknown' segment cannot come from the index alone
                             if got[k] != ref[k]:
                                 bad = [p for p in ref[k] if ref[k].get(p) != got[k].get(p)] if isinstance(ref[k], dict) else []
                                 res.violations.append(V('C09.index-only-metadata', 'TdmsFile.%s(index %s): %s%s differs: %s vs data '
@@ -208,11 +218,17 @@ def execute(case):
                                 if len(c) == 0:
                                     continue
                                 for name, fn in (('[:]', lambda: c[:]), ('read_data()', lambda: c.read_data()),
+                                                 ('iteration', lambda: list(c)), ('[-1]', lambda: c[-1]), ('[1:]', lambda: c[1:]),
                                                  ('[0]', lambda: c[0]), ('data_chunks', lambda: [x[:] for x in c.data_chunks()]),
                                                  ('read_data(scaled=False)', lambda: c.read_data(scaled=False))):
                                     r, exc, eo = ops.try_op(fn)
                                     res.compared += 1
                                     if exc is None:
+                                        nr = ops.norm(r)
+                                        if nr[0] in ('arr', 'strs', 'rawts') and _lazy.full_len(nr) == 0:
+                                            continue          # an empty result needs no data and is not data
+                                        if nr[0] == 'list' and not nr[1]:
+                                            continue
                                         res.violations.append(V('C09.index-only-returns-data', 'TdmsFile.%s(index %s): %s%s returned %s '
                                                                 'instead of raising' % (mode, kind, c.path, name, _lazy._short(ops.norm(r))),
                                                                 access=name))
